@@ -1,0 +1,417 @@
+//go:build verif
+// +build verif
+
+package s3afero
+
+// Contracts for the verification tooling (build tag verif). Comment-only.
+//
+// The afero file system is an assumed model (libcontracts/afero.gvc): existence, directory-ness
+// and size per path, open files as byte streams that remember their path, and logs of the
+// mutating calls. The clauses below say which path of which file system each S3 operation
+// touches and what it answers; that afero implements the model is trusted.
+
+//@ pred mdb(db) = db != nil && db.bucketFs != nil && db.metaStore != nil && db.metaStore.fs != nil && db.metaStore.modTimeCalc != nil && db.lock == 0
+//@ immutable MultiBucketBackend baseFs bucketFs metaStore dirMode init MultiBucket
+//@ immutable metaStore fs modTimeCalc init newMetaStore
+
+// where an object and its metadata live
+//@ pred objp(b, o) = filepath.FromSlash(path.Join(b, o))
+
+// ---- util.go ------------------------------------------------------------------------------
+
+//@ func limitReadCloser
+//@ props C11 C09
+//@ ensures [C11]     lim:    typeis(ret0, *readerWithCloser) && fresh(dyn(ret0, *readerWithCloser)) &&
+//@                             lim_src(dyn(ret0, *readerWithCloser).Reader) == rdr && lim_n(dyn(ret0, *readerWithCloser).Reader) == sz
+//@ modifies nothing
+
+// ---- meta.go ------------------------------------------------------------------------------
+
+// C10/C01: the metadata file of (bucket, object) is named by the bucket and by a digest of the
+// object key *as given* (before separators are replaced), so different keys get different files
+//@ func (*metaStore).metaPath
+//@ props C10 C01 C09
+//@ ensures [C10]     bucket: ret0.bucket == bucket
+//@ ensures [C10,C01] object: ret0.object == strings.Replace(strings.Replace(object, "/", "_", -1), "\\", "_", -1) + "-" + hex.EncodeToString(hsum(1, object))
+//@ modifies nothing
+
+//@ func (metaPath).FilePath
+//@ props C10 C09
+//@ ensures [C10]     join:   ret0 == filepath.Join(mp.bucket, mp.object)
+//@ modifies nothing
+
+// loadMeta/saveMeta/deleteMeta talk to the metadata file system only; what they were asked is logged
+//@ ghost lm_count : Int
+//@ ghost lm_bucket : Str
+//@ ghost lm_object : Str
+//@ ghost lm_size : Int
+//@ ghost sm_count : Int
+//@ ghost sm_bucket : Str
+//@ ghost sm_object : Str
+//@ ghost sm_meta : Int
+//@ ghost dmeta_count : Int
+//@ ghost dmeta_bucket : Str
+//@ ghost dmeta_object : Str
+
+//@ func (*metaStore).loadMeta
+//@ nobody
+//@ ensures            res:    imp(ret1 == nil, ret0 != nil && fresh(ret0) && allocated(ret0.Hash)) && imp(ret1 != nil, ret0 == nil && errcode(ret1) == "" && io_fails > old(io_fails)) && imp(ret1 == nil, io_fails == old(io_fails))
+//@ ensures            log:    lm_count == old(lm_count) + 1 && lm_bucket == bucket && lm_object == object && lm_size == size
+//@ modifies lm_count, lm_bucket, lm_object, lm_size, io_fails
+
+//@ func (*metaStore).saveMeta
+//@ nobody
+//@ ensures            err:    imp(ret0 != nil, errcode(ret0) == "" && io_fails > old(io_fails)) && imp(ret0 == nil, io_fails == old(io_fails))
+//@ ensures            log:    sm_count == old(sm_count) + 1 && sm_bucket == path.bucket && sm_object == path.object && sm_meta == meta
+//@ modifies sm_count, sm_bucket, sm_object, sm_meta, io_fails
+
+//@ func (*metaStore).deleteMeta
+//@ nobody
+//@ ensures            err:    imp(ret0 != nil, errcode(ret0) == "" && io_fails > old(io_fails)) && imp(ret0 == nil, io_fails == old(io_fails))
+//@ ensures            log:    dmeta_count == old(dmeta_count) + 1 && dmeta_bucket == path.bucket && dmeta_object == path.object
+//@ modifies dmeta_count, dmeta_bucket, dmeta_object, io_fails
+
+//@ func (*metaStore).deleteBucket
+//@ nobody
+//@ ensures            err:    imp(ret0 != nil, errcode(ret0) == "" && io_fails > old(io_fails)) && imp(ret0 == nil, io_fails == old(io_fails))
+//@ modifies io_fails
+
+// ---- multi.go -----------------------------------------------------------------------------
+
+// C02/C17: a bucket is a directory of bucketFs
+//@ func (*MultiBucketBackend).CreateBucket
+//@ props C02 C17 C09
+//@ requires          inv:    mdb(db)
+//@ ensures [C02]     dup:    imp(old(fs_exists(db.bucketFs, name)), ret0 != nil && imp(io_fails == old(io_fails), errcode(ret0) == gofakes3.ErrBucketAlreadyExists))
+//@ ensures [C02]     made:   imp(ret0 == nil, !old(fs_exists(db.bucketFs, name)) && fs_exists(db.bucketFs, name) && fs_isdir(db.bucketFs, name))
+//@ ensures           lock:   db.lock == 0
+
+//@ func (*MultiBucketBackend).BucketExists
+//@ props C02 C09
+//@ requires          inv:    mdb(db)
+//@ ensures [C02]     def:    imp(err == nil, exists == fs_exists(db.bucketFs, name))
+//@ ensures           lock:   db.lock == 0
+
+//@ func (*MultiBucketBackend).DeleteBucket
+//@ props C02 C09
+//@ requires          inv:    mdb(db)
+//@ ensures [C02]     nonempty: imp(old(fs_exists(db.bucketFs, name)) && !allstr(c, !fs_child(db.bucketFs, name, c)) && io_fails == old(io_fails),
+//@                             errcode(rerr) == gofakes3.ErrBucketNotEmpty && fs_removes == old(fs_removes))
+//@ ensures [C02]     gone:   imp(rerr == nil, !fs_exists(db.bucketFs, name) && allstr(c, !fs_child(db.bucketFs, name, c)))
+//@ ensures           lock:   db.lock == 0
+
+// C11/C01: a read opens exactly the object's file; a ranged read is positioned at the range's
+// first byte and limited to its length; size and range come from the file's own size
+//@ func (*MultiBucketBackend).GetObject
+//@ props C11 C01 C02 C10 C09
+//@ let RWC = dyn(obj.Contents, *readerWithCloser)
+//@ let F = ite(obj.Range == nil, obj.Contents, lim_src(RWC.Reader))
+//@ requires          inv:    mdb(db)
+//@ requires [C11]    req:    gofakes3.wfRangeReq(rangeRequest)
+//@ ensures [C02]     nobucket: imp(!fs_exists(db.bucketFs, bucketName) && io_fails == old(io_fails), errcode(rerr) == gofakes3.ErrNoSuchBucket)
+//@ ensures [C02]     nokey:  imp(fs_exists(db.bucketFs, bucketName) && (!fs_exists(db.bucketFs, objp(bucketName, objectName)) || fs_isdir(db.bucketFs, objp(bucketName, objectName))) && io_fails == old(io_fails),
+//@                             errcode(rerr) == gofakes3.ErrNoSuchKey)
+//@ ensures [C11]     badrange: imp(fs_exists(db.bucketFs, bucketName) && fs_exists(db.bucketFs, objp(bucketName, objectName)) && !fs_isdir(db.bucketFs, objp(bucketName, objectName)) && rangeRequest != nil &&
+//@                             !gofakes3.specRangeOK(rangeRequest.FromEnd, rangeRequest.Start, rangeRequest.End, fs_size(db.bucketFs, objp(bucketName, objectName))) && io_fails == old(io_fails),
+//@                             errcode(rerr) == gofakes3.ErrInvalidRange)
+//@ ensures [C01,C10] fields: imp(rerr == nil, obj != nil && obj.Name == objectName && obj.Size == fs_size(db.bucketFs, objp(bucketName, objectName)) && obj.Contents != nil &&
+//@                             lm_bucket == bucketName && lm_object == objectName && lm_size == obj.Size)
+//@ ensures [C11]     range:  imp(rerr == nil && rangeRequest != nil, obj.Range != nil &&
+//@                             obj.Range.Start == gofakes3.specRangeStart(rangeRequest.FromEnd, rangeRequest.Start, rangeRequest.End, obj.Size) &&
+//@                             obj.Range.Length == gofakes3.specRangeLen(rangeRequest.FromEnd, rangeRequest.Start, rangeRequest.End, obj.Size))
+//@ ensures [C11]     whole:  imp(rerr == nil && rangeRequest == nil, obj.Range == nil)
+//@ ensures [C11]     limit:  imp(rerr == nil && obj.Range != nil, typeis(obj.Contents, *readerWithCloser) && lim_n(RWC.Reader) == obj.Range.Length)
+//@ ensures [C11,C01,C10] file: imp(rerr == nil, f_fs(F) == db.bucketFs && f_path(F) == objp(bucketName, objectName) &&
+//@                             rd_pos(F) == ite(obj.Range == nil, 0, obj.Range.Start) && rd_len(F) == obj.Size)
+//@ ensures           lock:   db.lock == 0
+
+//@ func (*MultiBucketBackend).GetObject$1
+//@ props C09
+//@ requires          args:   obj != nil && rerr != nil && f != nil && *f != nil
+//@ ensures           mono:   io_fails >= old(io_fails)
+//@ modifies io_fails
+
+//@ func (*MultiBucketBackend).HeadObject
+//@ props C01 C02 C10 C09
+//@ requires          inv:    mdb(db)
+//@ ensures [C02]     nobucket: imp(!fs_exists(db.bucketFs, bucketName) && io_fails == old(io_fails), errcode(ret1) == gofakes3.ErrNoSuchBucket)
+//@ ensures [C02]     nokey:  imp(fs_exists(db.bucketFs, bucketName) && (!fs_exists(db.bucketFs, objp(bucketName, objectName)) || fs_isdir(db.bucketFs, objp(bucketName, objectName))) && io_fails == old(io_fails),
+//@                             errcode(ret1) == gofakes3.ErrNoSuchKey)
+//@ ensures [C01,C10] fields: imp(ret1 == nil, ret0 != nil && ret0.Name == objectName && ret0.Size == fs_size(db.bucketFs, objp(bucketName, objectName)) && ret0.Range == nil &&
+//@                             typeis(ret0.Contents, s3io.NoOpReadCloser) && lm_bucket == bucketName && lm_object == objectName && lm_size == ret0.Size)
+//@ ensures           lock:   db.lock == 0
+
+// C01/C08/C10: an upload creates exactly the object's file, copies the body into it and into the
+// digest, and records digest, metadata and size under the object's metadata path
+//@ func (*MultiBucketBackend).PutObject
+//@ props C01 C08 C12 C02 C10 C09
+//@ requires          inv:    mdb(db) && meta != nil && input != nil && size >= 0
+//@ ensures [C02]     nobucket: imp(!old(fs_exists(db.bucketFs, bucketName)) && io_fails == old(io_fails), err != nil)
+//@ ensures [C01,C10] file:   imp(err == nil, fs_creates == old(fs_creates) + 1 && fs_last_create == objp(bucketName, objectName) && cp_count == old(cp_count) + 1 && cp_src == input &&
+//@                             f_fs(mw_a(cp_dst)) == db.bucketFs && f_path(mw_a(cp_dst)) == objp(bucketName, objectName) && rd_pos(input) == rd_len(input))
+//@ ensures [C01,C10] meta:   imp(err == nil, sm_count == old(sm_count) + 1 && sm_bucket == bucketName &&
+//@                             sm_object == strings.Replace(strings.Replace(objectName, "/", "_", -1), "\\", "_", -1) + "-" + hex.EncodeToString(hsum(1, objectName)))
+//@ ensures [C08,C12] short:  imp(rd_len(input) - old(rd_pos(input)) != size, err != nil)
+//@ ensures [C08]     reject: imp(err != nil && !(io_fails > old(io_fails)), fs_creates == old(fs_creates))
+//@ ensures           lock:   db.lock == 0
+
+//@ func (*MultiBucketBackend).PutObject$1
+//@ props C09
+//@ requires          args:   closed != nil && f != nil && *f != nil
+//@ ensures           mono:   io_fails >= old(io_fails)
+//@ modifies io_fails
+
+// C02: deleting is idempotent and removes exactly the object's file and its metadata
+//@ func (*MultiBucketBackend).deleteObjectLocked
+//@ props C02 C10 C09
+//@ requires          inv:    db != nil && db.bucketFs != nil && db.metaStore != nil
+//@ ensures [C02,C10] file:   fs_removes == old(fs_removes) + 1 && fs_last_remove == objp(bucketName, objectName)
+//@ ensures [C02]     idem:   imp(io_fails == old(io_fails), ret0 == nil)
+//@ ensures [C02]     gone:   imp(ret0 == nil, !fs_exists(db.bucketFs, objp(bucketName, objectName)))
+//@ ensures [C02,C10] meta:   imp(ret0 == nil, dmeta_count == old(dmeta_count) + 1 && dmeta_bucket == bucketName)
+//@ modifies fs_exists(db.bucketFs), io_fails, fs_removes, fs_last_remove, dmeta_count, dmeta_bucket, dmeta_object
+
+//@ func (*MultiBucketBackend).DeleteObject
+//@ props C02 C10 C09
+//@ requires          inv:    mdb(db)
+//@ ensures [C02]     nobucket: imp(!old(fs_exists(db.bucketFs, bucketName)) && io_fails == old(io_fails), errcode(rerr) == gofakes3.ErrNoSuchBucket && fs_removes == old(fs_removes))
+//@ ensures [C02,C10] file:   imp(rerr == nil, fs_removes == old(fs_removes) + 1 && fs_last_remove == objp(bucketName, objectName) && !fs_exists(db.bucketFs, objp(bucketName, objectName)))
+//@ ensures [C02]     idem:   imp(old(fs_exists(db.bucketFs, bucketName)) && io_fails == old(io_fails), rerr == nil)
+//@ ensures           lock:   db.lock == 0
+
+// C17: a directory of bucketFs is reported as a bucket exactly when its name is a valid bucket name
+//@ func (*MultiBucketBackend).ListBuckets
+//@ props C17 C02 C09
+//@ requires          inv:    mdb(db)
+//@ loop 1 invariant  shape:  all(i, 0, len(dirEntries), dirEntries[i] != nil) && db.lock == -1 && -1 <= rangeindex && rangeindex < len(dirEntries)
+//@ loop 1 backstep [C17] entry: ite(gofakes3.specBucketName(dirEntry.Name()),
+//@                             len(buckets) == old(len(buckets)) + 1 && buckets[len(buckets) - 1].Name == dirEntry.Name(),
+//@                             len(buckets) == old(len(buckets)))
+//@ ensures           lock:   db.lock == 0
+
+// C03: listing one directory: every entry whose name starts with the partial last segment of the
+// prefix becomes exactly one entry - its key (directory path joined with the name) for a file,
+// the common prefix "directory path/name/" for a sub-directory - and every other entry none
+//@ func (*MultiBucketBackend).getBucketWithFilePrefixLocked
+//@ props C03 C02 C09
+//@ requires          inv:    db != nil && db.bucketFs != nil && db.metaStore != nil && db.metaStore.fs != nil
+//@ loop 1 invariant  shape:  response != nil && olInv(response) && all(i, 0, len(dirEntries), dirEntries[i] != nil) && -1 <= rangeindex && rangeindex < len(dirEntries)
+//@ loop 1 backstep [C03] entry: ite(prefixPart != "" && !strings.HasPrefix(entry.Name(), prefixPart),
+//@                             len(response.Contents) == old(len(response.Contents)) && len(response.CommonPrefixes) == old(len(response.CommonPrefixes)),
+//@                             ite(entry.IsDir(),
+//@                               len(response.Contents) == old(len(response.Contents)) &&
+//@                                 ex(i, 0, len(response.CommonPrefixes), response.CommonPrefixes[i].Prefix == path.Join(prefixPath, entry.Name()) + "/"),
+//@                               len(response.Contents) == old(len(response.Contents)) + 1 && len(response.CommonPrefixes) == old(len(response.CommonPrefixes)) &&
+//@                                 response.Contents[len(response.Contents) - 1] != nil &&
+//@                                 response.Contents[len(response.Contents) - 1].Key == path.Join(prefixPath, entry.Name()) &&
+//@                                 response.Contents[len(response.Contents) - 1].Size == entry.Size() &&
+//@                                 lm_bucket == bucket && lm_object == path.Join(prefixPath, entry.Name())))
+//@ ensures [C02]     nobucket: imp(!fs_exists(db.bucketFs, filepath.FromSlash(path.Join(bucket, prefixPath))) && io_fails == old(io_fails), errcode(ret1) == gofakes3.ErrNoSuchBucket)
+//@ ensures [C03]     whole:  imp(ret1 == nil, ret0 != nil && !ret0.IsTruncated && ret0.NextMarker == "")
+//@ ensures           lock:   db.lock == old(db.lock)
+
+// listing by walking the whole bucket: what one visited path contributes
+//@ func (*MultiBucketBackend).getBucketWithArbitraryPrefixLocked$1
+//@ props C03 C09
+//@ let R = *response
+//@ requires          args:   db != nil && *db != nil && (*db).metaStore != nil && bucket != nil && prefix != nil && *prefix != nil && response != nil && R != nil &&
+//@                             imp(err == nil, info != nil)
+// Walk hands over paths below its root, the bucket's directory: "<bucket>/<key>"
+//@ requires          below:  contains(filepath.ToSlash(path), "/")
+//@ rethint [C03]     entry:  imp(err == nil && !info.IsDir(),
+//@                             ite(!gofakes3.mOK(**prefix, objectName), ret0 == nil && len(R.Contents) == old(len(R.Contents)),
+//@                               ite(ret0 != nil, len(R.Contents) == old(len(R.Contents)),
+//@                                 len(R.Contents) == old(len(R.Contents)) + 1 && R.Contents[len(R.Contents) - 1] != nil &&
+//@                                 R.Contents[len(R.Contents) - 1].Key == objectName && R.Contents[len(R.Contents) - 1].Size == info.Size() &&
+//@                                 lm_bucket == *bucket && lm_object == objectName)))
+//@ ensures [C03]     skip:   imp(err != nil || info.IsDir(), ret0 == err && len(R.Contents) == old(len(R.Contents)))
+//@ ensures [C03]     keep:   R == old(R) && len(R.CommonPrefixes) == old(len(R.CommonPrefixes))
+//@ modifies (*response).Contents, lm_count, lm_bucket, lm_object, lm_size, io_fails
+
+//@ func (*MultiBucketBackend).getBucketWithArbitraryPrefixLocked
+//@ props C03 C02 C09
+//@ requires          inv:    db != nil && db.bucketFs != nil && db.metaStore != nil && db.metaStore.fs != nil && prefix != nil
+//@ ensures [C02]     nobucket: imp(!old(fs_exists(db.bucketFs, filepath.FromSlash(bucket))) && io_fails == old(io_fails), errcode(ret1) == gofakes3.ErrNoSuchBucket)
+//@ ensures           lock:   db.lock == old(db.lock)
+
+//@ func (*MultiBucketBackend).ListBucket
+//@ props C03 C04 C02 C17 C09
+//@ requires          inv:    mdb(db)
+//@ ensures [C02,C17] badname: imp(!gofakes3.specBucketName(bucket), errcode(ret1) == gofakes3.ErrNoSuchBucket)
+//@ ensures [C04]     nopage: imp(gofakes3.specBucketName(bucket) && (page.HasMarker || page.Marker != "" || page.MaxKeys != 0), ret0 == nil && ret1 != nil)
+//@ ensures           lock:   db.lock == 0
+
+//@ func (*MultiBucketBackend).DeleteMulti
+//@ props C02 C10 C09
+//@ requires          inv:    mdb(db)
+//@ loop 1 invariant  shape:  db.lock == -1 && -1 <= rangeindex && rangeindex < len(objects) &&
+//@                             len(result.Deleted) + len(result.Error) == rangeindex + 1
+//@ loop 1 backstep [C02,C10] each: fs_removes == old(fs_removes) + 1 && fs_last_remove == objp(bucketName, object)
+//@ ensures [C02]     nobucket: imp(!old(fs_exists(db.bucketFs, bucketName)) && io_fails == old(io_fails), errcode(rerr) == gofakes3.ErrNoSuchBucket && fs_removes == old(fs_removes))
+//@ ensures [C02]     answer: imp(rerr == nil, len(result.Deleted) + len(result.Error) == len(objects))
+//@ ensures           lock:   db.lock == 0
+
+//@ func (*MultiBucketBackend).ForceDeleteBucket
+//@ props C02 C09
+//@ requires          inv:    mdb(db)
+//@ loop 1 invariant  shape:  db.lock == -1 && all(i, 0, len(entries), entries[i] != nil) && -1 <= rangeindex && rangeindex < len(entries)
+//@ ensures [C02]     gone:   imp(ret0 == nil, !fs_exists(db.bucketFs, name))
+//@ ensures           lock:   db.lock == 0
+
+// ---- single.go ----------------------------------------------------------------------------
+// One bucket named db.name whose objects are the files of db.fs; every other bucket name answers
+// NoSuchBucket before the file system is touched.
+
+//@ pred sdb(db) = db != nil && db.fs != nil && db.metaStore != nil && db.metaStore.fs != nil && db.metaStore.modTimeCalc != nil && db.lock == 0
+//@ immutable SingleBucketBackend fs metaStore name init SingleBucket
+//@ pred sobjp(o) = filepath.FromSlash(o)
+
+//@ ghost em_count : Int
+//@ ghost em_bucket : Str
+//@ ghost em_object : Str
+//@ ghost em_size : Int
+//@ func (*SingleBucketBackend).ensureMeta
+//@ nobody
+//@ ensures            res:    imp(err == nil, meta != nil && allocated(meta.Hash)) && imp(err != nil, meta == nil && errcode(err) == "" && io_fails > old(io_fails)) && imp(err == nil, io_fails == old(io_fails))
+//@ ensures            log:    em_count == old(em_count) + 1 && em_bucket == bucket && em_object == objectPath && em_size == size
+//@ modifies em_count, em_bucket, em_object, em_size, io_fails
+
+//@ func (*SingleBucketBackend).BucketExists
+//@ props C02 C09
+//@ requires          inv:    db != nil
+//@ ensures [C02]     def:    err == nil && exists == (name == db.name)
+//@ modifies nothing
+
+//@ func (*SingleBucketBackend).GetObject
+//@ props C11 C01 C02 C10 C09
+//@ let RWC = dyn(obj.Contents, *readerWithCloser)
+//@ let F = ite(obj.Range == nil, obj.Contents, lim_src(RWC.Reader))
+//@ requires          inv:    sdb(db)
+//@ requires [C11]    req:    gofakes3.wfRangeReq(rangeRequest)
+//@ ensures [C02,C10] nobucket: imp(bucketName != db.name, errcode(err) == gofakes3.ErrNoSuchBucket && io_fails == old(io_fails))
+//@ ensures [C02]     nokey:  imp(bucketName == db.name && (!fs_exists(db.fs, sobjp(objectName)) || fs_isdir(db.fs, sobjp(objectName))) && io_fails == old(io_fails),
+//@                             errcode(err) == gofakes3.ErrNoSuchKey)
+//@ ensures [C11]     badrange: imp(bucketName == db.name && fs_exists(db.fs, sobjp(objectName)) && !fs_isdir(db.fs, sobjp(objectName)) && rangeRequest != nil &&
+//@                             !gofakes3.specRangeOK(rangeRequest.FromEnd, rangeRequest.Start, rangeRequest.End, fs_size(db.fs, sobjp(objectName))) && io_fails == old(io_fails),
+//@                             errcode(err) == gofakes3.ErrInvalidRange)
+//@ ensures [C01,C10] fields: imp(err == nil, obj != nil && obj.Name == objectName && obj.Size == fs_size(db.fs, sobjp(objectName)) && obj.Contents != nil &&
+//@                             em_bucket == bucketName && em_object == objectName && em_size == obj.Size)
+//@ ensures [C11]     range:  imp(err == nil && rangeRequest != nil, obj.Range != nil &&
+//@                             obj.Range.Start == gofakes3.specRangeStart(rangeRequest.FromEnd, rangeRequest.Start, rangeRequest.End, obj.Size) &&
+//@                             obj.Range.Length == gofakes3.specRangeLen(rangeRequest.FromEnd, rangeRequest.Start, rangeRequest.End, obj.Size))
+//@ ensures [C11]     whole:  imp(err == nil && rangeRequest == nil, obj.Range == nil)
+//@ ensures [C11]     limit:  imp(err == nil && obj.Range != nil, typeis(obj.Contents, *readerWithCloser) && lim_n(RWC.Reader) == obj.Range.Length)
+//@ ensures [C11,C01,C10] file: imp(err == nil, f_fs(F) == db.fs && f_path(F) == sobjp(objectName) &&
+//@                             rd_pos(F) == ite(obj.Range == nil, 0, obj.Range.Start) && rd_len(F) == obj.Size)
+//@ ensures           lock:   db.lock == 0
+
+//@ func (*SingleBucketBackend).GetObject$1
+//@ props C09
+//@ requires          args:   obj != nil && err != nil && f != nil && *f != nil
+//@ ensures           mono:   io_fails >= old(io_fails)
+//@ modifies io_fails
+
+//@ func (*SingleBucketBackend).HeadObject
+//@ props C01 C02 C10 C09
+//@ requires          inv:    sdb(db)
+//@ ensures [C02,C10] nobucket: imp(bucketName != db.name, errcode(ret1) == gofakes3.ErrNoSuchBucket && io_fails == old(io_fails))
+//@ ensures [C02]     nokey:  imp(bucketName == db.name && (!fs_exists(db.fs, sobjp(objectName)) || fs_isdir(db.fs, sobjp(objectName))) && io_fails == old(io_fails),
+//@                             errcode(ret1) == gofakes3.ErrNoSuchKey)
+//@ ensures [C01,C10] fields: imp(ret1 == nil, ret0 != nil && ret0.Name == objectName && ret0.Size == fs_size(db.fs, sobjp(objectName)) && ret0.Range == nil &&
+//@                             typeis(ret0.Contents, s3io.NoOpReadCloser) && em_bucket == bucketName && em_object == objectName && em_size == ret0.Size)
+//@ ensures           lock:   db.lock == 0
+
+//@ func (*SingleBucketBackend).PutObject
+//@ props C01 C08 C12 C02 C10 C09
+//@ requires          inv:    sdb(db) && meta != nil && input != nil && size >= 0
+//@ ensures [C02,C10] nobucket: imp(bucketName != db.name, errcode(err) == gofakes3.ErrNoSuchBucket && fs_creates == old(fs_creates))
+//@ ensures [C01,C10] file:   imp(err == nil, fs_creates == old(fs_creates) + 1 && fs_last_create == sobjp(objectName) && cp_count == old(cp_count) + 1 && cp_src == input &&
+//@                             f_fs(mw_a(cp_dst)) == db.fs && f_path(mw_a(cp_dst)) == sobjp(objectName) && rd_pos(input) == rd_len(input))
+//@ ensures [C01,C10] meta:   imp(err == nil, sm_count == old(sm_count) + 1 && sm_bucket == bucketName &&
+//@                             sm_object == strings.Replace(strings.Replace(objectName, "/", "_", -1), "\\", "_", -1) + "-" + hex.EncodeToString(hsum(1, objectName)))
+//@ ensures [C08,C12] short:  imp(rd_len(input) - old(rd_pos(input)) != size, err != nil)
+//@ ensures [C08]     reject: imp(err != nil && !(io_fails > old(io_fails)), fs_creates == old(fs_creates))
+//@ ensures           lock:   db.lock == 0
+
+//@ func (*SingleBucketBackend).PutObject$1
+//@ props C09
+//@ requires          args:   closed != nil && f != nil && *f != nil
+//@ ensures           mono:   io_fails >= old(io_fails)
+//@ modifies io_fails
+
+//@ func (*SingleBucketBackend).deleteObjectLocked
+//@ props C02 C10 C09
+//@ requires          inv:    db != nil && db.fs != nil && db.metaStore != nil
+//@ ensures [C02,C10] file:   fs_removes == old(fs_removes) + 1 && fs_last_remove == sobjp(objectName)
+//@ ensures [C02]     idem:   imp(io_fails == old(io_fails), ret0 == nil)
+//@ ensures [C02]     gone:   imp(ret0 == nil, !fs_exists(db.fs, sobjp(objectName)))
+//@ ensures [C02,C10] meta:   imp(ret0 == nil, dmeta_count == old(dmeta_count) + 1 && dmeta_bucket == bucketName)
+//@ modifies fs_exists(db.fs), io_fails, fs_removes, fs_last_remove, dmeta_count, dmeta_bucket, dmeta_object
+
+//@ func (*SingleBucketBackend).DeleteObject
+//@ props C02 C10 C09
+//@ requires          inv:    sdb(db)
+//@ ensures [C02,C10] nobucket: imp(bucketName != db.name, errcode(rerr) == gofakes3.ErrNoSuchBucket && fs_removes == old(fs_removes))
+//@ ensures [C02,C10] file:   imp(rerr == nil, fs_removes == old(fs_removes) + 1 && fs_last_remove == sobjp(objectName) && !fs_exists(db.fs, sobjp(objectName)))
+//@ ensures [C02]     idem:   imp(bucketName == db.name && io_fails == old(io_fails), rerr == nil)
+//@ ensures           lock:   db.lock == 0
+
+//@ func (*SingleBucketBackend).DeleteMulti
+//@ props C02 C10 C09
+//@ requires          inv:    sdb(db)
+//@ loop 1 invariant  shape:  db.lock == -1 && -1 <= rangeindex && rangeindex < len(objects) &&
+//@                             len(result.Deleted) + len(result.Error) == rangeindex + 1
+//@ loop 1 backstep [C02,C10] each: fs_removes == old(fs_removes) + 1 && fs_last_remove == sobjp(object)
+//@ ensures [C02,C10] nobucket: imp(bucketName != db.name, errcode(rerr) == gofakes3.ErrNoSuchBucket && fs_removes == old(fs_removes))
+//@ ensures [C02]     answer: imp(rerr == nil, len(result.Deleted) + len(result.Error) == len(objects))
+//@ ensures           lock:   db.lock == 0
+
+//@ func (*SingleBucketBackend).ListBuckets
+//@ props C02 C17 C09
+//@ requires          inv:    sdb(db)
+//@ ensures [C02]     one:    imp(ret1 == nil, len(ret0) == 1 && ret0[0].Name == db.name)
+//@ ensures           lock:   db.lock == 0
+
+//@ func (*SingleBucketBackend).ListBucket
+//@ props C03 C04 C02 C09
+//@ requires          inv:    sdb(db)
+//@ ensures [C02]     nobucket: imp(bucket != db.name, errcode(ret1) == gofakes3.ErrNoSuchBucket)
+//@ ensures [C04]     nopage: imp(bucket == db.name && (page.HasMarker || page.Marker != "" || page.MaxKeys != 0), ret0 == nil && ret1 != nil)
+//@ ensures           lock:   db.lock == 0
+
+//@ func (*SingleBucketBackend).getBucketWithFilePrefixLocked
+//@ props C03 C09
+//@ requires          inv:    db != nil && db.fs != nil && db.metaStore != nil && db.metaStore.fs != nil
+//@ loop 1 invariant  shape:  response != nil && olInv(response) && all(i, 0, len(dirEntries), dirEntries[i] != nil) && -1 <= rangeindex && rangeindex < len(dirEntries)
+//@ loop 1 backstep [C03] entry: ite(prefixPart != "" && !strings.HasPrefix(entry.Name(), prefixPart),
+//@                             len(response.Contents) == old(len(response.Contents)) && len(response.CommonPrefixes) == old(len(response.CommonPrefixes)),
+//@                             ite(entry.IsDir(),
+//@                               len(response.Contents) == old(len(response.Contents)) &&
+//@                                 ex(i, 0, len(response.CommonPrefixes), response.CommonPrefixes[i].Prefix == path.Join(prefixPath, entry.Name()) + "/"),
+//@                               len(response.Contents) == old(len(response.Contents)) + 1 && len(response.CommonPrefixes) == old(len(response.CommonPrefixes)) &&
+//@                                 response.Contents[len(response.Contents) - 1] != nil &&
+//@                                 response.Contents[len(response.Contents) - 1].Key == path.Join(prefixPath, entry.Name()) &&
+//@                                 response.Contents[len(response.Contents) - 1].Size == entry.Size() &&
+//@                                 em_bucket == bucket && em_object == path.Join(prefixPath, entry.Name())))
+//@ ensures [C03]     whole:  imp(ret1 == nil, ret0 != nil && !ret0.IsTruncated && ret0.NextMarker == "")
+//@ ensures           lock:   db.lock == old(db.lock)
+
+//@ func (*SingleBucketBackend).getBucketWithArbitraryPrefixLocked$1
+//@ props C03 C09
+//@ let R = *response
+//@ requires          args:   db != nil && *db != nil && (*db).metaStore != nil && bucket != nil && prefix != nil && *prefix != nil && response != nil && R != nil &&
+//@                             imp(err == nil, info != nil)
+//@ rethint [C03]     entry:  imp(err == nil && !info.IsDir(),
+//@                             ite(!gofakes3.mOK(**prefix, objectPath), ret0 == nil && len(R.Contents) == old(len(R.Contents)),
+//@                               ite(ret0 != nil, len(R.Contents) == old(len(R.Contents)),
+//@                                 len(R.Contents) == old(len(R.Contents)) + 1 && R.Contents[len(R.Contents) - 1] != nil &&
+//@                                 R.Contents[len(R.Contents) - 1].Key == objectPath && R.Contents[len(R.Contents) - 1].Size == info.Size() &&
+//@                                 em_bucket == *bucket && em_object == objectPath)))
+//@ ensures [C03]     skip:   imp(err != nil || info.IsDir(), ret0 == err && len(R.Contents) == old(len(R.Contents)))
+//@ ensures [C03]     keep:   R == old(R) && len(R.CommonPrefixes) == old(len(R.CommonPrefixes))
+//@ modifies (*response).Contents, em_count, em_bucket, em_object, em_size, io_fails
+
+//@ func (*SingleBucketBackend).getBucketWithArbitraryPrefixLocked
+//@ props C03 C09
+//@ requires          inv:    db != nil && db.fs != nil && db.metaStore != nil && db.metaStore.fs != nil && prefix != nil
+//@ ensures           lock:   db.lock == old(db.lock)
